@@ -346,7 +346,7 @@ fn enc_log(log: &[Ev]) -> String {
         .join(".")
 }
 
-const WATCHDOG: Duration = Duration::from_secs(25);
+const WATCHDOG: Duration = Duration::from_secs(90);
 
 /// runs `f` on a worker thread; if the event log makes no progress for WATCHDOG the run is reported as hung
 fn with_watchdog<R: Send + 'static>(f: impl FnOnce() -> R + Send + 'static) -> Result<R, &'static str> {
@@ -564,6 +564,7 @@ fn gen_history(rng: &mut Rng, visual: bool, nbatches: usize, many: bool) -> Vec<
         );
     }
     let mut hist = vec![];
+    let mut serial = 0u32;
     for f in 0..nbatches {
         let mut b: Batch = vec![];
         for (si, sid) in scene_ids.iter().enumerate() {
@@ -585,7 +586,13 @@ fn gen_history(rng: &mut Rng, visual: bool, nbatches: usize, many: bool) -> Vec<
                     conf: if rng.chance(1, 6) { 0.75 } else { 1.0 },
                     custom: if rng.chance(1, 3) { Some(100 * si as i64 + j as i64) } else { None },
                     q: if visual { Some(0.9) } else { None },
-                    feat: if visual && rng.chance(4, 5) { Some(vec![j as f32 * 4.0 + rng.dyadic(0, 8, 5), si as f32 + rng.dyadic(0, 8, 5)]) } else { None },
+                    feat: if visual && rng.chance(4, 5) {
+                        // a private offset per detection: no two feature distances of a scene coincide (no exact ties)
+                        serial += 1;
+                        Some(vec![j as f32 * 4.0 + serial as f32 / 509.0, si as f32 + (serial * serial % 31) as f32 / 1021.0])
+                    } else {
+                        None
+                    },
                 });
             }
             rng.shuffle(&mut ds);
@@ -609,6 +616,7 @@ fn gen_large(rng: &mut Rng, visual: bool, nscenes: usize) -> Vec<Batch> {
     let mut hist = vec![];
     let two: Vec<bool> = (0..nscenes).map(|_| rng.chance(1, 3)).collect();
     let off: Vec<(f32, f32)> = (0..nscenes).map(|_| (rng.dyadic(0, 64, 2), rng.dyadic(0, 64, 2))).collect();
+    let mut serial = 0u32;
     for f in 0..2 {
         let mut b: Batch = vec![];
         for si in 0..nscenes {
@@ -622,7 +630,12 @@ fn gen_large(rng: &mut Rng, visual: bool, nscenes: usize) -> Vec<Batch> {
                     conf: 1.0,
                     custom: None,
                     q: if visual { Some(0.9) } else { None },
-                    feat: if visual { Some(vec![4.0 * j as f32 + rng.dyadic(0, 8, 5), rng.dyadic(0, 8, 5)]) } else { None },
+                    feat: if visual {
+                        serial += 1;
+                        Some(vec![4.0 * j as f32 + (serial % 251) as f32 / 509.0, (serial * serial % 31) as f32 / 1021.0])
+                    } else {
+                        None
+                    },
                 });
             }
             b.push((1 + si as u64, ds));
@@ -646,7 +659,17 @@ fn gen_occlusion(rng: &mut Rng) -> Vec<Batch> {
     let nscenes = 2 + rng.below(2) as usize;
     let variants: Vec<bool> = (0..nscenes).map(|i| if i == 0 { true } else if i == 1 { false } else { rng.chance(1, 2) }).collect(); // true = U, false = C
     let base: Vec<(f32, f32)> = (0..nscenes).map(|_| (rng.dyadic(0, 40, 2), rng.dyadic(0, 40, 2))).collect();
-    let feat = |rng: &mut Rng, x: f32, y: f32| Some(vec![x + rng.dyadic(0, 4, 5), y + rng.dyadic(0, 4, 5)]);
+    // Appearance must be free of exact ties as well: when two detections claim one track (after X's look has entered
+    // A's gallery) BestFitVoting compares sums of (max distance - distance); on equal weights the outcome depends on
+    // HashMap order, in the simple tracker too. Every detection therefore gets its own offset on a grid whose steps
+    // are pairwise incommensurable enough (1/8, 3/32, 5/64 per look family plus a per-scene shift): no two feature
+    // distances inside a scene coincide.
+    let mut serial = 0u32;
+    let mut feat = |_rng: &mut Rng, x: f32, y: f32| {
+        serial += 1;
+        let fam = if x == 0.0 && y == 0.0 { 8.0 } else if x == 4.0 && y == 0.0 { 32.0 / 3.0 } else { 64.0 / 5.0 };
+        Some(vec![x + serial as f32 / fam / 8.0, y + (serial * serial % 17) as f32 / 512.0])
+    };
     let mk = |x: f32, y: f32, h: f32, f: Option<Vec<f32>>| Det { x, y, aspect: 0.625, h, conf: 1.0, custom: None, q: Some(0.9), feat: f };
     let mut hist = vec![];
     for f in 0..5usize {
